@@ -33,6 +33,67 @@ theorem order_minCost (cost : Pid → Rat) (score : Pid → Nat) (l : List Pid) 
   rw [if_neg (by simp)]
   rfl
 
+/-! ### the order and the identity of projects
+
+  `sorted(projects)` — the pre-sort of every tie-breaking rule, of the greedy fast path, of `sorted(instance)` — and membership
+  in sets and dicts rest on `Project.__lt__`, `__le__`, `__eq__`, `__hash__`.  The regenerated definitions (names as their
+  ranks in the string order) compare the NAMES, whether the other side is a project or a bare name; so the order is a strict
+  total order that agrees with `__le__` and `__eq__`, and equal projects have equal hashes.  A "natural" order that treats some
+  pairs of names as numbers (not transitive: "2" < "10" < "1a" < "2") does not translate to these definitions. -/
+
+theorem projectLt (a b : Rat) :
+    Gen.C13.projectLt a b = decide (a < b) ∧ Gen.C13.projectLtName a b = decide (a < b) := ⟨rfl, rfl⟩
+
+theorem projectLe (a b : Rat) :
+    Gen.C13.projectLe a b = decide (a ≤ b) ∧ Gen.C13.projectLeName a b = decide (a ≤ b) := ⟨rfl, rfl⟩
+
+theorem projectEq (a b : Rat) :
+    Gen.C13.projectEq a b = decide (a = b) ∧ Gen.C13.projectEqName a b = decide (a = b) ∧ Gen.C13.projectEqOther = false :=
+  ⟨rfl, rfl, rfl⟩
+
+/-- equal projects have equal hashes, whatever the hash function of strings is -/
+theorem projectHash (h : Rat → Rat) (a b : Rat) (heq : Gen.C13.projectEq a b = true) :
+    Gen.C13.projectHash h a = Gen.C13.projectHash h b := by
+  unfold Gen.C13.projectEq at heq
+  rw [of_decide_eq_true heq]
+
+/-- the library's order on projects is a strict total order, consistent with its `<=` and `==` -/
+theorem project_order_strict_total :
+    (∀ a, Gen.C13.projectLt a a = false) ∧
+    (∀ a b c, Gen.C13.projectLt a b = true → Gen.C13.projectLt b c = true → Gen.C13.projectLt a c = true) ∧
+    (∀ a b, Gen.C13.projectLt a b = true ∨ Gen.C13.projectEq a b = true ∨ Gen.C13.projectLt b a = true) ∧
+    (∀ a b, Gen.C13.projectLe a b = (Gen.C13.projectLt a b || Gen.C13.projectEq a b)) ∧
+    (∀ a b, Gen.C13.projectLt a b = true → Gen.C13.projectLt b a = false) := by
+  refine ⟨?_, ?_, ?_, ?_, ?_⟩
+  · intro a
+    unfold Gen.C13.projectLt
+    exact decide_eq_false (lt_irrefl a)
+  · intro a b c h1 h2
+    unfold Gen.C13.projectLt at *
+    exact decide_eq_true (lt_trans (of_decide_eq_true h1) (of_decide_eq_true h2))
+  · intro a b
+    unfold Gen.C13.projectLt Gen.C13.projectEq
+    rcases lt_trichotomy a b with h | h | h
+    · exact Or.inl (decide_eq_true h)
+    · exact Or.inr (Or.inl (decide_eq_true h))
+    · exact Or.inr (Or.inr (decide_eq_true h))
+  · intro a b
+    unfold Gen.C13.projectLe Gen.C13.projectLt Gen.C13.projectEq
+    rw [Bool.eq_iff_iff]
+    simp only [decide_eq_true_eq, Bool.or_eq_true]
+    exact le_iff_lt_or_eq
+  · intro a b h
+    unfold Gen.C13.projectLt at *
+    exact decide_eq_false (lt_asymm (of_decide_eq_true h))
+
+/-- the model sorts tied projects by their ids (`sortIds`), i.e. by `projectLt` on the name ranks -/
+theorem sortIds_is_project_order (p q : Pid) :
+    Gen.C13.projectLt ((p : Nat) : Rat) ((q : Nat) : Rat) = decide (p < q) := by
+  unfold Gen.C13.projectLt
+  rw [Bool.eq_iff_iff]
+  simp only [decide_eq_true_eq]
+  exact Nat.cast_lt
+
 example : Gen.C13.maxCostKey 3 < Gen.C13.maxCostKey 2 := by
   norm_num [Gen.C13.maxCostKey]
 
